@@ -37,6 +37,7 @@ def run(ctx):
     ctx.do(rule_descends)
     ctx.do(rule_every_entry_yielded)
     ctx.do(rule_one_judge_of_selectors)
+    ctx.do(rule_walk_has_no_depth_bound)
     from .hidden_state import rule_no_hidden_state
     ctx.do(rule_no_hidden_state, "C08.history-independence")
     from .pitfalls import rule_loops_not_cut_short
@@ -633,3 +634,24 @@ def rule_one_judge_of_selectors(ctx, rule_id="C08.reject"):
     if n_in < 2:
         raise AnalysisError("fewer than 2 selector refusals found in markings/utils.py (%d): anchors lost" % n_in)
     run.ok(rule_id, key("stix2/markings/utils.py", "<module>", "only-judge-of-selectors"))
+
+
+def rule_walk_has_no_depth_bound(ctx, rule_id="C08.descends-into-objects"):
+    """Every element of the content is addressable, at any depth: the path walk of markings/utils.py ends where the content
+    ends.  A bound on the length of the path (a 'guard against hostile nesting') silently stops enumerating below it, and the
+    selectors of existing deeper elements are refused.  No statement of the walk returns / continues under a test of the
+    path's length or of a depth counter."""
+    run = ctx.run
+    prog = ctx.prog
+    n = 0
+    for fi in sorted((f for f in prog.functions.values() if f.module.name == MU and "iterpath" in f.name), key=lambda f: f.id):
+        n += 1
+        bad = [x for x in body_walk(fi.node) if isinstance(x, ast.If) and x.body and isinstance(x.body[-1], (ast.Return, ast.Continue, ast.Break))
+               and any(isinstance(c, ast.Compare) and any(isinstance(o, (ast.Gt, ast.GtE, ast.Lt, ast.LtE)) for o in c.ops)
+                       and ("len(" in norm(c) or "depth" in norm(c).lower() or "level" in norm(c).lower()) for c in ast.walk(x.test))]
+        run.check(not bad, rule_id, key(fi.module.relpath, fi.qualname, "no-depth-bound"),
+                  "the selector walk stops at a fixed depth: elements below it exist in the content but are not enumerated, so "
+                  "selectors addressing them are refused", file=fi.module.relpath, line=bad[0].lineno if bad else fi.node.lineno,
+                  function=fi.qualname, expected="the walk ends where the content ends", found=[short(b.test, 60) for b in bad])
+    if n < 1:
+        raise AnalysisError("no iterpath function found in markings/utils.py")
